@@ -1689,7 +1689,8 @@ func ruleC05_5(c *Ctx) {
 			a := newA4(c.Prog)
 			s := a.analyse(g, ctx, nil)
 			var bad []string
-			for _, w := range s.writes {
+			keptW, _ := a4FilterReviewed(s.writes)
+			for _, w := range keptW {
 				if name == "in_toto.VerifySublayouts" && w.fn == g {
 					if _, isMU := w.instr.(*ssa.MapUpdate); isMU {
 						continue // the summary link replaces the sublayout (shape decided by R-C08-3)
